@@ -198,12 +198,13 @@ pub fn replay_limits(rest: &[String]) -> anyhow::Result<()> {
                     };
                     let main = one(&src, &mut eval);
                     let probe = one("emit(1)\n", &mut eval);
-                    json!({"main": main, "probe": probe})
+                    let probe2 = one("def _p(n):\n    for i in range(n):\n        pass\n_p(1500)\n", &mut eval);
+                    json!({"main": main, "probe": probe, "probe2": probe2})
                 })
             }));
             runs.push(match r {
                 Ok(j) => j,
-                Err(p) => json!({"main": {"kind": "panic", "msg": p, "out": [], "total": 0, "stack": 0}, "probe": {"kind": "panic"}}),
+                Err(p) => json!({"main": {"kind": "panic", "msg": p, "out": [], "total": 0, "stack": 0}, "probe": {"kind": "panic"}, "probe2": {"kind": "panic", "total": 0}}),
             });
         }
         out.write(&json!({"id": c["id"], "src": src, "runs": runs}))?;
